@@ -72,6 +72,27 @@ struct Shim {
   std::function<long(const std::string& path, const std::string& data)> on_write;
   // called for every directory entry handed to the code under test: (directory path, entry name)
   std::function<void(const std::string& dir, const std::string& name)> on_readdir;
+  // kernfs-style directory identities: (generation << 32) | slot, the slot belonging to the path, so that a
+  // cgroup re-created under its old path differs from its predecessor in the upper 32 bits only. Applied to
+  // what fstat() shows the code under test and to what the harness reads back (Sim::inode).
+  bool virt_ino{false};
+  std::map<uint64_t, uint64_t> virt_of_real;
+  std::map<std::string, std::pair<uint32_t, uint32_t>> virt_path; // path -> (slot, generation)
+  uint64_t virtRegister(const std::string& path, uint64_t real) {
+    std::lock_guard<std::recursive_mutex> l(mu);
+    auto it = virt_path.find(path);
+    if (it == virt_path.end()) it = virt_path.emplace(path, std::make_pair((uint32_t)virt_path.size() + 100, 0u)).first;
+    it->second.second++;
+    uint64_t v = ((uint64_t)it->second.second << 32) | it->second.first;
+    virt_of_real[real] = v;
+    return v;
+  }
+  uint64_t virtOf(uint64_t real) {
+    if (!virt_ino) return real;
+    std::lock_guard<std::recursive_mutex> l(mu);
+    auto it = virt_of_real.find(real);
+    return it == virt_of_real.end() ? real : it->second;
+  }
   int64_t kill_cost_ms{0}; // virtual time every kill(2) takes (a loaded machine)
   long aux{-1}; // set by on_write: processes a cgroup.kill write found (-1 otherwise)
   // called before every file access with the (redirected) path and a kind tag
